@@ -87,6 +87,19 @@ class FeedServer(threading.Thread):
                 elif kind == "accept":
                     if not self._accept(step[1]):
                         break
+                elif kind == "flap":
+                    # a relay with a dead backend: every connection is accepted and closed at once
+                    end = time.monotonic() + step[1]
+                    self.sock.settimeout(0.2)
+                    n = 0
+                    while time.monotonic() < end and not self.stop.is_set():
+                        try:
+                            c, _ = self.sock.accept()
+                            c.close()
+                            n += 1
+                        except OSError:
+                            pass
+                    self.log.append((time.monotonic(), "flapped", n))
                 elif kind == "saturate":
                     # the server is alive but does not accept: fill the accept queue with dummy
                     # connections for step[1] seconds, so that further connects time out; then drain
@@ -310,15 +323,16 @@ class FakeGpsd(threading.Thread):
     silent, sends a line that is no JSON, or hangs up. Shared by all sessions of a run; if the
     port is taken (another run is using it) it simply is not started."""
 
-    def __init__(self, lat=52.1, lon=4.1):
+    def __init__(self, lat=52.1, lon=4.1, ip="127.0.0.1", modes=("periodic", "once", "garbage", "hangup"), drift=0.0005):
         super().__init__(daemon=True)
-        self.lat, self.lon = lat, lon
+        self.lat, self.lon = lat, lon   # may be changed while running: the next report carries the new fix
+        self.ip, self.modes, self.drift = ip, modes, drift
         self.connections = 0
         self.sock = socket.socket(socket.AF_INET, socket.SOCK_STREAM)
         self.sock.setsockopt(socket.SOL_SOCKET, socket.SO_REUSEADDR, 1)
         self.ok = True
         try:
-            self.sock.bind(("127.0.0.1", 2947))
+            self.sock.bind((self.ip, 2947))
             self.sock.listen(16)
         except OSError:
             self.ok = False
@@ -347,18 +361,18 @@ class FakeGpsd(threading.Thread):
                 pass
             c.sendall(b'{"class":"DEVICES","devices":[{"path":"/dev/gps","activated":"2026-10-03T00:00:00.000Z"}]}\r\n')
             c.sendall(b'{"class":"WATCH","enable":true,"json":true,"nmea":false}\r\n')
-            mode = k % 4
-            tpv = lambda i: ('{"class":"TPV","mode":3,"lat":%.6f,"lon":%.6f}\r\n' % (self.lat + 0.0005 * i, self.lon)).encode()
-            if mode == 0:
-                for i in range(200):
+            mode = self.modes[k % len(self.modes)]
+            tpv = lambda i: ('{"class":"TPV","mode":3,"lat":%.6f,"lon":%.6f}\r\n' % (self.lat + self.drift * i, self.lon)).encode()
+            if mode == "periodic":
+                for i in range(600):
                     if self.stop:
                         break
                     c.sendall(tpv(i))
-                    time.sleep(0.3)
-            elif mode == 1:
+                    time.sleep(0.2)
+            elif mode == "once":
                 c.sendall(tpv(0))
                 time.sleep(90)  # one report, then silence
-            elif mode == 2:
+            elif mode == "garbage":
                 c.sendall(b"this is not json\r\n" + tpv(1))
                 time.sleep(90)
             else:
